@@ -1,4 +1,5 @@
 """C10 - socket protocol (Sockets facet)."""
+import mutators
 import simlib
 import vlib
 
@@ -15,6 +16,6 @@ def run(ctx):
     else:
         gens = [{"module": "Gen_C10.tla", "cfg": "Gen_C10_thorough.cfg", "name": "bfs"},
                 {"module": "Gen_C10.tla", "cfg": "Gen_C10_sim.cfg", "name": "sim", "simulate": 1500, "depth": 9}]
-    simlib.engine_check(ctx, gens, FACETS)
+    simlib.engine_check(ctx, gens, FACETS, selftests=mutators.SOCKETS)
     ctx.assumptions += ["sockets are virtual (ares_set_socket_functions_ex); descriptor numbers are never reused by the harness",
                         "ares_getsock is checked up to its 16-socket limit"]
